@@ -1378,7 +1378,7 @@ class AstEval:
 
     async def recurse_assign(self, lhs, val):
         """Recursive assignment."""
-        if isinstance(lhs, ast.Tuple):
+        if isinstance(lhs, (ast.Tuple, ast.List)):
             try:
                 vals = [*(iter(val))]
             except Exception:
@@ -1400,11 +1400,7 @@ class AstEval:
             for lhs_elt in lhs.elts:
                 if isinstance(lhs_elt, ast.Starred):
                     star_len = len(vals) - len(lhs.elts) + 1
-                    star_name = lhs_elt.value.id
-                    await self.recurse_assign(
-                        ast.Name(id=star_name, ctx=ast.Store()),
-                        vals[val_idx : val_idx + star_len],
-                    )
+                    await self.recurse_assign(lhs_elt.value, vals[val_idx : val_idx + star_len])
                     val_idx += star_len
                 else:
                     await self.recurse_assign(lhs_elt, vals[val_idx])
@@ -2015,12 +2011,11 @@ class AstEval:
     async def get_target_names(self, lhs):
         """Recursively find all the target names mentioned in the AST tree."""
         names = set()
-        if isinstance(lhs, ast.Tuple):
+        if isinstance(lhs, (ast.Tuple, ast.List)):
             for lhs_elt in lhs.elts:
                 if isinstance(lhs_elt, ast.Starred):
-                    names.add(lhs_elt.value.id)
-                else:
-                    names = names.union(await self.get_target_names(lhs_elt))
+                    lhs_elt = lhs_elt.value
+                names = names.union(await self.get_target_names(lhs_elt))
         elif isinstance(lhs, ast.Attribute):
             var_name = await self.ast_attribute_collapse(lhs, check_undef=False)
             if isinstance(var_name, str):
